@@ -246,3 +246,318 @@ theorem parseHeader_indep : ∀ (f off line : Nat) (acc : List (String × Nat ×
                 omega
 
 end Dtr
+
+namespace Dtr
+
+/-! ### blank space in the header line -/
+
+/-- header parse results that differ in byte offsets only: the same names in the same order, the same line
+counter, the same rest of the input; or both are errors -/
+def HdrSame : HdrRes → HdrRes → Prop
+  | .ok n1 l1 _ r1, .ok n2 l2 _ r2 => n2.map (·.1) = n1.map (·.1) ∧ l2 = l1 ∧ r2 = r1
+  | .err _, .err _ => True
+  | _, _ => False
+
+theorem find_names' (name : String) : ∀ (a b : List (String × Nat × Nat)), b.map (·.1) = a.map (·.1) →
+    (b.find? (fun x => x.1 == name)).isSome = (a.find? (fun x => x.1 == name)).isSome
+  | [], [], _ => rfl
+  | [], _ :: _, h => by simp at h
+  | _ :: _, [], h => by simp at h
+  | x :: xs, y :: ys, h => by
+    simp only [List.map_cons, List.cons.injEq] at h
+    simp only [List.find?_cons, h.1]
+    split
+    · rfl
+    · exact find_names' name xs ys h.2
+
+/-- the header parser does not care about offsets: with other offsets and other spans in the accumulator it
+returns the same names, line and rest -/
+theorem parseHeader_off : ∀ (f off off' line : Nat) (acc acc' : List (String × Nat × Nat)) (s : Str),
+    acc'.map (·.1) = acc.map (·.1) → HdrSame (parseHeader f off line acc s) (parseHeader f off' line acc' s)
+  | 0, _, _, _, _, _, _, _ => by simp [parseHeader, HdrSame]
+  | f+1, _, _, _, _, _, [], _ => by simp [parseHeader, HdrSame]
+  | f+1, off, off', line, acc, acc', c :: cs, h => by
+    simp only [parseHeader]
+    have hemp : acc'.isEmpty = acc.isEmpty := by
+      cases acc <;> cases acc' <;> simp_all
+    split
+    · exact parseHeader_off f _ _ line acc acc' cs h
+    · split
+      · rw [hemp]
+        split
+        · exact parseHeader_off f _ _ (line + 1) acc acc' cs h
+        · simp [HdrSame, h]
+      · have hf := find_names' (String.ofList ((c :: cs).take (tw isHdrName (c :: cs)))) acc acc' h
+        cases h1 : acc.find? (fun x => x.1 == String.ofList ((c :: cs).take (tw isHdrName (c :: cs)))) <;>
+          cases h2 : acc'.find? (fun x => x.1 == String.ofList ((c :: cs).take (tw isHdrName (c :: cs)))) <;>
+          simp [h1, h2] at hf
+        · simp only
+          exact parseHeader_off f _ _ line _ _ _ (by simp [h])
+        · simp [HdrSame]
+
+theorem HdrSame.trans {a b c : HdrRes} (h1 : HdrSame a b) (h2 : HdrSame b c) : HdrSame a c := by
+  cases a <;> cases b <;> cases c <;> simp_all [HdrSame]
+
+/-- more fuel than characters changes nothing -/
+theorem parseHeader_fuel : ∀ (f off line : Nat) (acc : List (String × Nat × Nat)) (s : Str), s.length < f →
+    parseHeader (f + 1) off line acc s = parseHeader f off line acc s
+  | 0, _, _, _, _, h => by omega
+  | f+1, off, line, acc, [], _ => by simp [parseHeader]
+  | f+1, off, line, acc, c :: cs, h => by
+    have hl : cs.length < f := by simp at h; omega
+    have htw : ((c :: cs).drop (tw isHdrName (c :: cs))).length < f ∨ tw isHdrName (c :: cs) = 0 := by
+      by_cases h0 : tw isHdrName (c :: cs) = 0
+      · exact Or.inr h0
+      · left; simp only [List.length_drop, List.length_cons]; simp at h; omega
+    simp only [parseHeader]
+    split
+    · exact parseHeader_fuel f _ _ _ cs hl
+    · split
+      · split
+        · exact parseHeader_fuel f _ _ _ cs hl
+        · rfl
+      · next hb hn =>
+        have hq : isHdrName c = true := by
+          have hn' : c ≠ '\n' := by simpa using hn
+          have hb' : isBlank c = false := by simpa using hb
+          simp [isHdrName, hb', hn']
+        have hpos : 1 ≤ tw isHdrName (c :: cs) := by simp [tw, List.takeWhile, hq]
+        split
+        · rfl
+        · rcases htw with h1 | h1
+          · exact parseHeader_fuel f _ _ _ _ h1
+          · omega
+
+theorem parseHeader_fuel_ge (off line : Nat) (acc : List (String × Nat × Nat)) (s : Str) :
+    ∀ (k f : Nat), s.length < f → parseHeader (f + k) off line acc s = parseHeader f off line acc s
+  | 0, f, _ => rfl
+  | k+1, f, h => by
+    rw [← Nat.add_assoc, parseHeader_fuel (f + k) off line acc s (by omega), parseHeader_fuel_ge off line acc s k f h]
+
+/-- a run of blanks in front of the text is skipped -/
+theorem parseHeader_blanks : ∀ (w : Str), (∀ b ∈ w, isBlank b = true) →
+    ∀ (f off line : Nat) (acc : List (String × Nat × Nat)) (s : Str), s.length < f →
+      parseHeader (f + w.length) off line acc (w ++ s) = parseHeader f (off + utf8Len w) line acc s
+  | [], _, f, off, line, acc, s, _ => by simp [utf8Len]
+  | b :: w, hw, f, off, line, acc, s, hf => by
+    have hb := hw b (by simp)
+    have ih := parseHeader_blanks w (fun a ha => hw a (by simp [ha])) f (off + b.utf8Size) line acc s hf
+    have e : f + (b :: w).length = (f + w.length) + 1 := by simp; omega
+    rw [e, List.cons_append, parseHeader]
+    simp only [hb, if_true]
+    rw [ih]
+    congr 1
+    show off + b.utf8Size + utf8Len w = off + utf8Len (b :: w)
+    have : utf8Len (b :: w) = b.utf8Size + utf8Len w := by
+      show (b :: w).foldl (fun n c => n + c.utf8Size) 0 = _
+      rw [List.foldl_cons]
+      have hfold : ∀ (l : Str) (a : Nat), l.foldl (fun n c => n + c.utf8Size) a = a + utf8Len l := by
+        intro l
+        induction l with
+        | nil => intro a; simp [utf8Len]
+        | cons x xs ih => intro a; simp only [List.foldl_cons, utf8Len]; rw [ih, ih (0 + x.utf8Size)]; omega
+      rw [hfold]; omega
+    omega
+
+end Dtr
+
+namespace Dtr
+
+theorem tw_all_append (q : Char → Bool) (A B : Str) (hA : ∀ a ∈ A, q a = true)
+    (hB : B = [] ∨ ∃ x xs, B = x :: xs ∧ q x = false) : tw q (A ++ B) = A.length := by
+  rcases hB with rfl | ⟨x, xs, rfl, hx⟩
+  · simp [tw_all q A hA]
+  · exact tw_stop' q x hx A xs hA
+
+/-- the position behind `A` in `A ++ B` is not inside a name -/
+def HdrBoundary (A B : Str) : Prop :=
+  A = [] ∨ (∃ a, A.getLast? = some a ∧ isHdrName a = false) ∨ B = [] ∨ ∃ x xs, B = x :: xs ∧ isHdrName x = false
+
+theorem tw_split (q : Char → Bool) : ∀ (A : Str), (∀ a ∈ A, q a = true) ∨
+    ∃ A1 x A2, A = A1 ++ x :: A2 ∧ (∀ a ∈ A1, q a = true) ∧ q x = false
+  | [] => Or.inl (by simp)
+  | c :: A => by
+    by_cases hc : q c = true
+    · rcases tw_split q A with h | ⟨A1, x, A2, rfl, h1, hx⟩
+      · exact Or.inl (by intro a ha; simp at ha; rcases ha with rfl | ha; exact hc; exact h a ha)
+      · exact Or.inr ⟨c :: A1, x, A2, rfl, by intro a ha; simp at ha; rcases ha with rfl | ha; exact hc; exact h1 a ha, hx⟩
+    · exact Or.inr ⟨[], c, A, rfl, by simp, by simpa using hc⟩
+
+/-- **blanks inserted in the header line, not inside a name**: same names, same line counter, same rest -/
+theorem parseHeader_ins (w : Str) (hw : ∀ b ∈ w, isBlank b = true) :
+    ∀ (f off off' line : Nat) (acc acc' : List (String × Nat × Nat)) (A B : Str),
+      acc'.map (·.1) = acc.map (·.1) → (∀ c ∈ A, c ≠ '\n') → HdrBoundary A B → (A ++ B).length < f →
+      HdrSame (parseHeader f off line acc (A ++ B)) (parseHeader (f + w.length) off' line acc' (A ++ (w ++ B))) := by
+  intro f
+  induction f with
+  | zero => intro off off' line acc acc' A B _ _ _ h; omega
+  | succ f ih =>
+    intro off off' line acc acc' A B hacc hnl hbd hf
+    cases A with
+    | nil =>
+      simp only [List.nil_append]
+      rw [parseHeader_blanks w hw (f + 1) off' line acc' B (by simpa using hf)]
+      exact parseHeader_off (f + 1) off _ line acc acc' B hacc
+    | cons c A' =>
+      have hc : c ≠ '\n' := hnl c (by simp)
+      have hnl' : ∀ x ∈ A', x ≠ '\n' := fun x hx => hnl x (by simp [hx])
+      have hlen : (A' ++ B).length < f := by simp at hf ⊢; omega
+      have e : f + 1 + w.length = (f + w.length) + 1 := by omega
+      rw [e]
+      by_cases hb : isBlank c = true
+      · -- a blank
+        simp only [List.cons_append, parseHeader, hb, if_true]
+        refine ih _ _ line acc acc' A' B hacc hnl' ?_ hlen
+        cases A' with
+        | nil => exact Or.inl rfl
+        | cons d ds =>
+          rcases hbd with h | ⟨a, ha, hq⟩ | h | h
+          · cases h
+          · exact Or.inr (Or.inl ⟨a, by rw [← getLast_cons_ne c (d :: ds) (by simp)]; exact ha, hq⟩)
+          · exact Or.inr (Or.inr (Or.inl h))
+          · exact Or.inr (Or.inr (Or.inr h))
+      · have hn : (c == '\n') = false := by simpa using hc
+        have hq : isHdrName c = true := by
+          have hb' : isBlank c = false := by simpa using hb
+          simp [isHdrName, hb', hc]
+        simp only [List.cons_append, parseHeader, hb, hn, if_false, Bool.false_eq_true]
+        -- where does the name that starts here end?
+        rcases tw_split isHdrName A' with hall | ⟨A1, x, A2, hA', h1, hx⟩
+        · -- it fills the rest of `A`: the boundary condition says that it ends there
+          have hAall : ∀ a ∈ c :: A', isHdrName a = true := by
+            intro a ha; simp at ha; rcases ha with rfl | ha
+            · exact hq
+            · exact hall a ha
+          have hB : B = [] ∨ ∃ y ys, B = y :: ys ∧ isHdrName y = false := by
+            rcases hbd with h | ⟨a, ha, hqa⟩ | h | h
+            · cases h
+            · exfalso
+              have hm : a ∈ c :: A' := List.mem_of_getLast? ha
+              rw [hAall a hm] at hqa; cases hqa
+            · exact Or.inl h
+            · exact Or.inr h
+          have ht1 : tw isHdrName (c :: (A' ++ B)) = (c :: A').length := by
+            rw [← List.cons_append]; exact tw_all_append isHdrName (c :: A') B hAall hB
+          have ht2 : tw isHdrName (c :: (A' ++ (w ++ B))) = (c :: A').length := by
+            rw [← List.cons_append]
+            refine tw_all_append isHdrName (c :: A') (w ++ B) hAall ?_
+            cases w with
+            | nil => simpa using hB
+            | cons b w' =>
+              right
+              have hbb := hw b (by simp)
+              exact ⟨b, w' ++ B, rfl, by simp [isHdrName, hbb]⟩
+          have hk1 : (c :: (A' ++ B)).take (c :: A').length = c :: A' := by
+            rw [← List.cons_append, List.take_left']; rfl
+          have hk2 : (c :: (A' ++ (w ++ B))).take (c :: A').length = c :: A' := by
+            rw [← List.cons_append, List.take_left']; rfl
+          have hd1 : (c :: (A' ++ B)).drop (c :: A').length = B := by
+            rw [← List.cons_append, List.drop_left']; rfl
+          have hd2 : (c :: (A' ++ (w ++ B))).drop (c :: A').length = w ++ B := by
+            rw [← List.cons_append, List.drop_left']; rfl
+          rw [ht1, ht2, hk1, hk2, hd1, hd2]
+          have hfn := find_names' (String.ofList (c :: A')) acc acc' hacc
+          cases h1 : acc.find? (fun x => x.1 == String.ofList (c :: A')) <;>
+            cases h2 : acc'.find? (fun x => x.1 == String.ofList (c :: A')) <;> rw [h1, h2] at hfn
+          · simp only
+            have := ih (off + utf8Len (c :: A')) (off' + utf8Len (c :: A')) line
+              (acc ++ [(String.ofList (c :: A'), off, off + utf8Len (c :: A'))])
+              (acc' ++ [(String.ofList (c :: A'), off', off' + utf8Len (c :: A'))]) [] B (by simp [hacc])
+              (by simp) (Or.inl rfl) (by simp at hlen ⊢; omega)
+            simpa using this
+          · exact absurd hfn (by simp)
+          · exact absurd hfn (by simp)
+          · simp [HdrSame]
+        · -- it ends inside `A`
+          subst hA'
+          have hAall : ∀ a ∈ c :: A1, isHdrName a = true := by
+            intro a ha; simp at ha; rcases ha with rfl | ha
+            · exact hq
+            · exact h1 a ha
+          have ht1 : tw isHdrName (c :: (A1 ++ x :: A2 ++ B)) = (c :: A1).length := by
+            have := tw_stop' isHdrName x hx (c :: A1) (A2 ++ B) hAall
+            simpa using this
+          have ht2 : tw isHdrName (c :: (A1 ++ x :: A2 ++ (w ++ B))) = (c :: A1).length := by
+            have := tw_stop' isHdrName x hx (c :: A1) (A2 ++ (w ++ B)) hAall
+            simpa using this
+          have hk : ∀ (Z : Str), (c :: (A1 ++ x :: A2 ++ Z)).take (c :: A1).length = c :: A1 := by
+            intro Z
+            have : c :: (A1 ++ x :: A2 ++ Z) = (c :: A1) ++ (x :: A2 ++ Z) := by simp
+            rw [this, List.take_left']; rfl
+          have hd : ∀ (Z : Str), (c :: (A1 ++ x :: A2 ++ Z)).drop (c :: A1).length = (x :: A2) ++ Z := by
+            intro Z
+            have : c :: (A1 ++ x :: A2 ++ Z) = (c :: A1) ++ (x :: A2 ++ Z) := by simp
+            rw [this, List.drop_left']; rfl
+          rw [ht1, ht2, hk B, hk (w ++ B), hd B, hd (w ++ B)]
+          have hfn := find_names' (String.ofList (c :: A1)) acc acc' hacc
+          cases h1' : acc.find? (fun y => y.1 == String.ofList (c :: A1)) <;>
+            cases h2 : acc'.find? (fun y => y.1 == String.ofList (c :: A1)) <;> rw [h1', h2] at hfn
+          · simp only
+            refine ih _ _ line _ _ (x :: A2) B (by simp [hacc]) (fun y hy => hnl' y (List.mem_append_right _ hy)) ?_
+              (by simp at hlen ⊢; omega)
+            -- the boundary condition is about the end of `A`, which is the end of `x :: A2`
+            cases A2 with
+            | nil =>
+              exact Or.inr (Or.inl ⟨x, rfl, hx⟩)
+            | cons d ds =>
+              rcases hbd with h | ⟨a, ha, hqa⟩ | h | h
+              · cases h
+              · refine Or.inr (Or.inl ⟨a, ?_, hqa⟩)
+                have : (c :: (A1 ++ x :: d :: ds)).getLast? = (x :: d :: ds).getLast? := by
+                  rw [← List.cons_append, List.getLast?_append]
+                  simp only [List.getLast?_cons_cons]
+                  cases hg : (d :: ds).getLast? with
+                  | none => simp at hg
+                  | some z => rfl
+                rw [← this]; exact ha
+              · exact Or.inr (Or.inr (Or.inl h))
+              · exact Or.inr (Or.inr (Or.inr h))
+          · exact absurd hfn (by simp)
+          · exact absurd hfn (by simp)
+          · simp [HdrSame]
+
+end Dtr
+
+namespace Dtr
+
+theorem utf8Len_cons' (c : Char) (cs : Str) : utf8Len (c :: cs) = c.utf8Size + utf8Len cs := by
+  have hfold : ∀ (l : Str) (a : Nat), l.foldl (fun n c => n + c.utf8Size) a = a + utf8Len l := by
+    intro l
+    induction l with
+    | nil => intro a; simp [utf8Len]
+    | cons x xs ih => intro a; simp only [List.foldl_cons, utf8Len]; rw [ih, ih (0 + x.utf8Size)]; omega
+  show (c :: cs).foldl (fun n c => n + c.utf8Size) 0 = _
+  rw [List.foldl_cons, hfold]; omega
+
+/-- blank lines in front of the header: skipped, counted -/
+theorem parseHeader_lead : ∀ (P : Str), (∀ c ∈ P, isBlank c = true ∨ c = '\n') →
+    ∀ (f off line : Nat) (s : Str), s.length < f →
+      parseHeader (f + P.length) off line [] (P ++ s) = parseHeader f (off + utf8Len P) (line + nlCount P) [] s
+  | [], _, f, off, line, s, _ => by simp [utf8Len, nlCount]
+  | c :: P, hP, f, off, line, s, hf => by
+    have ih := parseHeader_lead P (fun a ha => hP a (by simp [ha])) f
+    have e : f + (c :: P).length = (f + P.length) + 1 := by simp; omega
+    rw [e, List.cons_append, parseHeader]
+    rcases hP c (by simp) with hb | hn
+    · have hc : c ≠ '\n' := by intro e; subst e; simp [isBlank] at hb
+      simp only [hb, if_true]
+      rw [ih _ _ s hf, utf8Len_cons']
+      have : nlCount (c :: P) = nlCount P := by simp [nlCount, List.count_cons, hc]
+      rw [this, Nat.add_assoc]
+    · subst hn
+      have hb : isBlank '\n' = false := by decide
+      simp only [hb, Bool.false_eq_true, if_false, beq_self_eq_true, if_true, List.isEmpty_nil]
+      rw [ih _ _ s hf, utf8Len_cons']
+      have : nlCount ('\n' :: P) = nlCount P + 1 := by simp [nlCount, List.count_cons]
+      rw [this]
+      congr 1 <;> omega
+
+/-- the header of `P ++ X`, `P` blank lines: the header of `X` with offset and line counter advanced -/
+theorem parseHeaderAll_lead (P X : Str) (hP : ∀ c ∈ P, isBlank c = true ∨ c = '\n') :
+    parseHeaderAll (P ++ X) = parseHeader (X.length + 1) (utf8Len P) (1 + nlCount P) [] X := by
+  unfold parseHeaderAll
+  have e : (P ++ X).length + 1 = (X.length + 1) + P.length := by simp; omega
+  rw [e, parseHeader_lead P hP (X.length + 1) 0 1 X (by omega)]
+  simp
+
+end Dtr
